@@ -3,8 +3,13 @@ import CoclsModel.LimitedQueue
 import Drivers.SchedCommon
 /-! Driver for C10: runs the `limited_queue` model on the harness input (same grammar as harness/h_queue.cpp).
 
-Kind `lq <limit>` (harness `run_case`): sequential; every out-of-lock resolution is performed right after the lock
-region that decided it.
+Kind `lq <limit> [nl|cp]` (harness `run_case`): sequential; every out-of-lock resolution is performed right after the lock
+region that decided it.  (`nl`: Lock = no_lock, `cp`: copy-only item type - the model is the same.)
+
+Throwing items: `pushthrow` (the item refuses construction), `pushmv v g [n]`, `popthrow g [n]`, `cothrow g [n]` (the pop
+is issued by a coroutine that co_awaits it; the same model operation), `upushthrow c [g [n]]`: the call runs under the
+fault plan (g, n) - its hand-overs number g … g+n-1 throw (defaults g = 1, n = 1).  A call that throws prints
+`<op> threw` and uses up no push / pop id in the sequential kind.
 
 Kind `slq <limit>` (harness `run_sched`): scheduled interleavings, see `Drivers/SchedCommon.lean`; this file supplies
 the model side (`schedModel`): one lock region = one step of the `LimitedQueue.lean` model, `deliver` of a paused call =
@@ -17,6 +22,7 @@ def outStr : Out → String
   | Out.ok => "ok"
   | Out.exc c => s!"exc:{c}"
   | Out.canceled => "canceled"
+  | Out.itemerr => "itemerr"
 
 def evStr : Ev → String
   | Ev.pop id o => s!"pop#{id}={outStr o}"
@@ -40,6 +46,19 @@ def parseOp (ws : List String) : Option Op :=
   | ["size"] => some Op.size
   | ["empty"] => some Op.empty
   | ["destroy"] => some Op.destroy
+  | ["pushthrow"] => some Op.pushthrow
+  | "pushmv" :: v :: g :: rest =>
+      match v.toNat?, g.toNat?, (rest.head?.map String.toNat?).getD (some 1), decide (rest.length ≤ 1) with
+      | some v, some g, some n, true => some (Op.pushmv v g n)
+      | _, _, _, _ => none
+  | "popthrow" :: rest | "cothrow" :: rest =>
+      match (rest[0]?.map String.toNat?).getD (some 1), (rest[1]?.map String.toNat?).getD (some 1), decide (rest.length ≤ 2) with
+      | some g, some n, true => some (Op.popthrow g n)
+      | _, _, _ => none
+  | "upushthrow" :: c :: rest =>
+      match c.toNat?, (rest[0]?.map String.toNat?).getD (some 1), (rest[1]?.map String.toNat?).getD (some 1), decide (rest.length ≤ 2) with
+      | some c, some g, some n, true => some (Op.upushthrow c g n)
+      | _, _, _, _ => none
   | _ => none
 
 def doOp (s : State) (op : Op) : State × String :=
@@ -56,7 +75,10 @@ def doOp (s : State) (op : Op) : State × String :=
     | Res.pop id (some o) => s!"pop#{id} {outStr o}"
     | Res.pop id none => s!"pop#{id} pending"
     | Res.flag b => (match op with
-        | Op.upop _ => "upop " | Op.upush _ => "upush " | _ => "empty ") ++ boolStr b
+        | Op.upop _ => "upop " | Op.upush _ => "upush " | Op.upushthrow _ _ _ => "upush " | _ => "empty ") ++ boolStr b
+    | Res.threw => (match op with
+        | Op.pushthrow => "pushthrow" | Op.pushmv _ _ _ => "pushmv" | Op.popthrow _ _ => "popthrow"
+        | Op.upushthrow _ _ _ => "upushthrow" | _ => "?") ++ " threw"
     | Res.num n => s!"size {n}"
     | Res.unit => "destroy"
     | Res.bad => "bad-op"
@@ -68,6 +90,7 @@ structure SSt where
   st : State
   popMap : List (Nat × Nat) := []      -- model pop id ↦ harness pop id
   pushMap : List (Nat × Nat) := []
+  groups : List Nat := []              -- per paused call (in parking order): how many resolutions it left in flight
 
 def lookup (m : List (Nat × Nat)) (mid : Nat) : Nat := (m.find? (·.1 == mid)).map (·.2) |>.getD mid
 
@@ -85,7 +108,10 @@ def schedModel : Sched.Model SSt where
     match schedOp ws with
     | none => none
     | some Op.pop => some (s!"pop#{ctr.1}", ctr.1, (ctr.1 + 1, ctr.2))
+    | some (Op.popthrow _ _) => some (s!"pop#{ctr.1}", ctr.1, (ctr.1 + 1, ctr.2))     -- the id is used up even if it throws
     | some (Op.push _) => some (s!"push#{ctr.2}", ctr.2, (ctr.1, ctr.2 + 1))
+    | some (Op.pushmv _ _ _) => some (s!"push#{ctr.2}", ctr.2, (ctr.1, ctr.2 + 1))
+    | some (Op.upushthrow _ _ _) => some ("upush", 0, ctr)
     | some _ => some (ws.headD "", 0, ctr)
   apply s ws hid :=
     match schedOp ws with
@@ -93,6 +119,7 @@ def schedModel : Sched.Model SSt where
     | some op =>
       let (s1, r) := step s.st op
       let paused := s1.inflight.length > s.st.inflight.length
+      let s : SSt := if paused then { s with groups := s.groups ++ [s1.inflight.length - s.st.inflight.length] } else s
       match r with
       | Res.push id ready =>
           let s' : SSt := { s with st := s1, pushMap := (id, hid) :: s.pushMap }
@@ -105,11 +132,17 @@ def schedModel : Sched.Model SSt where
           | none => { st := s', status := "pending", paused := paused, own := none }
       | Res.flag b => { st := { s with st := s1 }, status := boolStr b, paused := paused, own := none }
       | Res.num n => { st := { s with st := s1 }, status := toString n, paused := paused, own := none }
+      | Res.threw => { st := { s with st := s1 }, status := "threw", paused := paused, own := none }
       | _ => { st := { s with st := s1 }, status := "bad", paused := paused, own := none }
   deliver s k :=
-    match s.st.inflight[k]? with
+    -- the k-th paused call performs all the resolutions it left in flight (one after the other, in order)
+    match s.groups[k]? with
     | none => (s, [])
-    | some e => ({ s with st := (step s.st (Op.deliver k)).1 }, [sevOf s e])
+    | some sz =>
+      let off := (s.groups.take k).foldl (· + ·) 0
+      let evs := (s.st.inflight.drop off).take sz
+      let st' := (List.range sz).foldl (fun st _ => (step st (Op.deliver off)).1) s.st
+      ({ s with st := st', groups := s.groups.eraseIdx k }, evs.map (sevOf s))
   destroy s :=
     let n0 := s.st.completed.length
     let s1 := (step s.st Op.destroy).1
@@ -136,7 +169,8 @@ partial def loop (lines : Array String) (i : Nat) (st : Option State) : IO Unit 
         else match parseOp ws with
           | some op =>
               let (s', out) := doOp s op
-              IO.println out
+              -- `cothrow`: the same pop, issued by a coroutine
+              IO.println (if ws.head? == some "cothrow" && out.startsWith "popthrow threw" then "cothrow" ++ (out.drop 8).toString else out)
               if op == Op.destroy then IO.println "end"
               loop lines (i+1) (if op == Op.destroy then none else some s')
           | none => IO.println "bad-op"; loop lines (i+1) st
